@@ -145,7 +145,7 @@ type c18Nested struct {
 	Priv int      `asn1:"private,tag:31"`
 	L    []int
 	S    []int    `asn1:"set"`
-	Opt  c18Inner  `asn1:"optional,tag:7"`
+	Opt  c18Inner `asn1:"optional,tag:7"`
 }
 
 // verif: covers=done
@@ -196,10 +196,12 @@ type c18BigTime struct {
 func VerifH_C18_marshal_roundtrip_bigint_time() {
 	n := big.NewInt(int64(int8(vr.U8("n")))) // 16-bit values left one round-trip assertion undecided
 	// instants from a boundary list: calendar arithmetic on symbolic seconds is out of reach
-	pick := func(label string, xs []int64) time.Time { return time.Unix(xs[vr.Pick(vr.Int(label, 0, len(xs)-1))], 0).UTC() }
+	pick := func(label string, xs []int64) time.Time {
+		return time.Unix(xs[vr.Pick(vr.Int(label, 0, len(xs)-1))], 0).UTC()
+	}
 	in := c18BigTime{N: n,
 		U: pick("utc", []int64{-631152000, 0, 946684799, 946684800, 2524607999}),            // 1950-01-01 .. 2049-12-31
-		G: pick("gen", []int64{-2208988800, 0, 2524608000, 253402300799}),                  // 1900 .. 9999
+		G: pick("gen", []int64{-2208988800, 0, 2524608000, 253402300799}),                   // 1900 .. 9999
 		D: pick("def", []int64{-631152000, 2524607999, 2524608000, -631152001, 4102444800})} // both sides of the UTCTime range
 	der, err := Marshal(in)
 	vr.Assert(err == nil, "marshals")
